@@ -45,4 +45,14 @@ TEXT = {
         level_text="Exploration: typed traces with platform (never mapped) and mapped exception classes, resolved and unresolved frames and cause chains to depth 4 are remapped through mapper and cache; the monitor checks depth, that no throwable is dropped or invented, that each frame list is the model's expansion, and for canonical traces that printing the typed result equals the text API's output for the printed input.",
         level_note="Trusted: model M; the library's own Display is used on both sides of the typed-vs-text comparison.",
     ),
+    "C09": dict(
+        technique="runtime monitor: structural invariant checker (independent decoder written from the format documentation) at the quiescent point after write + content oracle from model M; Miri and valgrind memcheck on the writer's as_bytes() casts",
+        level_text="Exploration: every generated or corpus mapping is serialised and the bytes are decoded by a decoder that shares no code with the library: magic/version/counts, strict class order, exact tiling of member and by-params ranges in class order, member and by-params ordering, 8-byte alignment with zero padding, declared string length, validity of every referenced string offset or the absent sentinel; decoded content and order are compared with the reference model; the library's own self-test must accept the file. Miri (quick and thorough) and valgrind (thorough) watch the writer's raw-byte views for uninitialised or misaligned reads.",
+        level_note="Trusted: decoder D (~300 lines), model M, Miri/valgrind. Representable domain; 8-aligned buffers.",
+    ),
+    "C17": dict(
+        technique="runtime monitor: print->parse->print round-trip oracle against the trace AST",
+        level_text="Exploration: random traces from the statement's domain are printed by the library, parsed back and compared with the AST, then printed again and compared with the first print; same for single frames and throwables.",
+        level_note="Trusted: the trace AST and its documented printed form (also compared with the library's Display).",
+    ),
 }
